@@ -710,7 +710,7 @@ func (g *G) constExpr(k Kind, d int) Expr {
 				return e
 			}
 		case 6:
-			return &Cond{C: g.constExpr(KBool, d-1), A: sub(KInt), B: sub(KInt)}
+			return &Cond{C: g.constExpr([]Kind{KBool, KStr, KInt, KAny}[g.pick(4, "ccondk")], d-1), A: sub(KInt), B: sub(KInt)}
 		}
 		return g.intLit()
 	case KFloat:
